@@ -299,12 +299,39 @@ def entry_points(data):
     yield "extract_text_to_fp(xml)", xml
 
 
+SAMPLES = ["jo.pdf", "contrib/issue-00369-excel.pdf", "contrib/issue-1059-cmap-decode.pdf", "contrib/issue-1057-tiff-predictor.pdf", "contrib/issue-886-xref-stream-widths.pdf", "contrib/matplotlib.pdf", "contrib/pdf-with-jbig2.pdf"]
+SAMPLES_STRIDED = ["simple4.pdf", "contrib/issue-1062-filters.pdf", "contrib/pagelabels.pdf", "sampleOneByteIdentityEncode.pdf", "contrib/2b.pdf", "encryption/aes-128.pdf", "encryption/rc4-128.pdf", "encryption/aes-256-r6.pdf", "contrib/issue-625-identity-cmap.pdf"]
+_sample_cache = {}
+
+
+def sample_bytes(rel):
+    if rel not in _sample_cache:
+        import os
+
+        with open(os.path.join(core.REPO, "samples", rel), "rb") as fh:
+            _sample_cache[rel] = fh.read()
+    return _sample_cache[rel]
+
+
+class _SampleSeed:
+    """A repository sample used for torn-write (truncation) faults only."""
+
+    def __init__(self, rel):
+        self.name = "sample:" + rel
+        self.roles = {}
+
+
 def run(tape, ctx, item=None):
     if item is None:
         raise core.HarnessError("C13 runs enumerated items only")
-    seed = SEEDS[item["seed"]]
     f = item["f"]
-    data = apply_fault(seed, f)
+    if "sample" in item:
+        seed = _SampleSeed(item["sample"])
+        BASE[seed.name] = sample_bytes(item["sample"])
+        data = BASE[seed.name][: f[1]]
+    else:
+        seed = SEEDS[item["seed"]]
+        data = apply_fault(seed, f)
     budget = STEP_K * (len(data) + STEP_C)
     devs = []
     fk, role = kind_of(f), role_of(seed, f)
@@ -343,7 +370,9 @@ def run(tape, ctx, item=None):
         seen.setdefault(d.sig, d)
     tape.note((item, outcomes))
     sample = {"seed": seed.name, "fault": f, "role": role, "outcomes": outcomes, "bytes": len(data)}
-    return Outcome(list(seen.values()), scen=data.hex() if len(data) < 64 else __import__("hashlib").sha256(data).hexdigest(), nontrivial=data != BASE[seed.name], sample=sample)
+    if "sample" in item:
+        BASE.pop(seed.name, None)
+    return Outcome(list(seen.values()), scen=data.hex() if len(data) < 64 else __import__("hashlib").sha256(data).hexdigest(), nontrivial=len(data) > 0 and data != BASE.get(seed.name), sample=sample)
 
 
 # -------------------------------------------------------------------------------- jobs
@@ -372,11 +401,32 @@ def jobs(tier, seed):
         for part in range(nparts):
             js.append({"kind": "enum", "batch": b, "seed": name, "what": "truncate", "part": part, "nparts": nparts})
             b += 1
+    # torn writes of real-world producers' files: every truncation point (thorough) / a seed-phased stride (quick)
+    for rel in SAMPLES:
+        nparts = 8 if tier == "thorough" else 1
+        for part in range(nparts):
+            js.append({"kind": "enum", "batch": b, "sample": rel, "what": "sample-truncate", "part": part, "nparts": nparts, "stride": 1 if tier == "thorough" else 29, "phase": seed})
+            b += 1
+    # larger samples: every 11th offset belongs to the fault set (thorough: all of those; quick: a seed-phased 1/20 of them)
+    for rel in SAMPLES_STRIDED:
+        nparts = 8 if tier == "thorough" else 1
+        for part in range(nparts):
+            js.append({"kind": "enum", "batch": b, "sample": rel, "what": "sample-truncate", "part": part, "nparts": nparts, "stride": 1 if tier == "thorough" else 20, "phase": seed, "step": 11})
+            b += 1
     return js
 
 
 def items(job):
     setup()
+    if job["what"] == "sample-truncate":
+        n = len(sample_bytes(job["sample"]))
+        step = job.get("step", 1)
+        for i, k in enumerate(range(0, n, step)):
+            if i % job["nparts"] != job["part"]:
+                continue
+            if (i // job["nparts"]) % job["stride"] == job["phase"] % job["stride"]:
+                yield {"sample": job["sample"], "f": ["truncate", k]}
+        return
     if job["what"] == "truncate":
         n = len(BASE[job["seed"]])
         for k in range(job["part"], n, job["nparts"]):
